@@ -113,7 +113,7 @@ fn main() {
     {
         let (tx, rx) = std::sync::mpsc::channel();
         std::thread::spawn(move || { let mut b = vec![]; for _ in 0..3 { b.extend_from_slice(&[0x0A, 0xFF, 0xFF, 0xFF, 0xFF]); } let _ = dec(&payload(18, b)); let _ = tx.send(()); });
-        if rx.recv_timeout(std::time::Duration::from_secs(20)).is_err() { fail("to_rtmp_message(type 18, three nested strict arrays announcing 2^32-1 elements, no elements present) did not return within 20 s".into()); }
+        if rx.recv_timeout(std::time::Duration::from_secs(60)).is_err() { fail("to_rtmp_message(type 18, three nested strict arrays announcing 2^32-1 elements, no elements present) did not return within 60 s".into()); }
     }
     println!("NONE");
 }
